@@ -32,14 +32,16 @@ func c04Run(cs c04Case) (fs []F) {
 		b = root.Slice(cs.S, cs.S+cs.L)
 	}
 	for i := range st.cells {
-		st.cells[i] = int64(i + 1)
+		st.cells[i] = tk(int64(i + 1))
 	}
-	fill(root, 1)
+	for i, x := range st.cells {
+		root.SetSample(i, dyn.Tok(t, x))
+	}
 	m := mview{st: st, off: cs.C * cs.S, n: cs.C * cs.L, ch: cs.C, bits: dyn.Types[t].Bits}
 	alias := full(b) // shares the storage; must see every appended value
 	malias, _ := m.slice(0, m.capacity())
 	cap0 := m.capTotal()
-	tok := int64(len(st.cells) + 1)
+	tok := tk(int64(len(st.cells) + 1))
 	for k := 1; k <= cs.N; k++ {
 		if p, msg := dyn.Try(func() { b.AppendSample(dyn.Tok(t, tok)) }); p {
 			fail("panic", "call %d panicked: %s", k, msg)
@@ -49,7 +51,7 @@ func c04Run(cs c04Case) (fs []F) {
 			m.set(m.n, tok)
 			m.n++
 		}
-		tok++
+		tok = tk(tok + 1)
 		if d := cmpView(b, m); d != "" {
 			fail("view", "after call %d: %s", k, d)
 			return
@@ -89,6 +91,15 @@ func init() {
 					}
 				}
 			}
+			for _, t := range []int{dyn.Int8, dyn.Uint16, dyn.Float32, dyn.Int64} {
+				for C := 1; C <= 4; C++ {
+					for _, P := range []int{16, 100} {
+						for _, w := range [][2]int{{0, 0}, {0, P - 1}, {1, P / 2}, {P / 2, 1}, {P - 1, 0}} {
+							cases = append(cases, c04Case{Type: tn(t), C: C, P: P, S: w[0], L: w[1], N: C*(P-w[0]-w[1]) + extra})
+						}
+					}
+				}
+			}
 			var calls int64
 			for _, cs := range cases {
 				calls += int64(cs.N)
@@ -107,7 +118,7 @@ func init() {
 			c.Set("evaluations", calls)
 			c.Sample(cases[57])
 			c.Sample(cases[len(cases)-1])
-			c.Set("rule", fmt.Sprintf("13 element types x C in 1..4 x storage of P in 0..4 frames x window start S x initial length L (windows of a larger buffer, and direct Alloc(C,L,P)); each history is spare capacity + %d AppendSample calls, checked after every call against the views model (state = Len; transition = one call); non-trivial = has spare capacity", extra))
+			c.Set("rule", fmt.Sprintf("13 element types x C in 1..4 x storage of P in 0..4 frames x window start S x initial length L (windows of a larger buffer, and direct Alloc(C,L,P)); each history is spare capacity + %d AppendSample calls, checked after every call against the views model (state = Len; transition = one call); non-trivial = has spare capacity; plus storages of 16 and 100 frames for 4 element types", extra))
 			c.Assume("storage identity is observed by aliasing (a full-capacity view taken before the first call and the root buffer), not by address")
 		},
 		RunCase: func(c *core.Ctx, raw json.RawMessage) []F { return c04Run(decode[c04Case](raw)) },
